@@ -261,6 +261,9 @@ func (vc *FnVC) callModifies(c *ssa.CallCommon) (comps []string, all bool, keep 
 					if _, isGhost := vc.prog.cs.Ghosts[loc]; isGhost {
 						continue
 					}
+					if strings.HasPrefix(loc, "globals(") {
+						continue
+					}
 					if env := vc.dummyEnvFor(fc); env != nil {
 						for _, c := range env.compsOfLocSpec(loc) {
 							ks["comp:"+c] = true
@@ -675,7 +678,7 @@ func (vc *FnVC) applyContract(fc *FuncContract, sig *types.Signature, args []Val
 				if _, isGhost := vc.prog.cs.Ghosts[loc]; isGhost {
 					continue
 				}
-				if strings.HasPrefix(loc, "all(") {
+				if strings.HasPrefix(loc, "all(") || strings.HasPrefix(loc, "globals(") {
 					continue
 				}
 				for _, c := range env.compsOfLocSpec(loc) {
@@ -1062,6 +1065,7 @@ func (vc *FnVC) doBuiltin(res ssa.Value, b *ssa.Builtin, c *ssa.CallCommon, st *
 	case "append":
 		vc.doAppend(res, c, st)
 	case "delete":
+		vc.lockObligation(c.Args[0], true, st)
 		m := vc.term(c.Args[0]).S
 		k := vc.term(c.Args[1]).S
 		mt := c.Args[0].Type().Underlying().(*types.Map)
